@@ -242,16 +242,18 @@ class BaseClient:
         # - self.handlers[namespace]["*"]
         # - self.handlers["*"][event]
         # - self.handlers["*"]["*"]
+        # a peer can name its event or its namespace '*': that is an ordinary
+        # name on the wire, only registrations use it as a wildcard
         handler = None
-        if namespace in self.handlers:
-            if event in self.handlers[namespace]:
+        if namespace != '*' and namespace in self.handlers:
+            if event != '*' and event in self.handlers[namespace]:
                 handler = self.handlers[namespace][event]
             elif event not in self.reserved_events and \
                     '*' in self.handlers[namespace]:
                 handler = self.handlers[namespace]['*']
                 args = (event, *args)
         if handler is None and '*' in self.handlers:
-            if event in self.handlers['*']:
+            if event != '*' and event in self.handlers['*']:
                 handler = self.handlers['*'][event]
                 args = (namespace, *args)
             elif event not in self.reserved_events and \
@@ -267,7 +269,7 @@ class BaseClient:
         # - self.namespace_handlers[namespace]
         # - self.namespace_handlers["*"]
         handler = None
-        if namespace in self.namespace_handlers:
+        if namespace != '*' and namespace in self.namespace_handlers:
             handler = self.namespace_handlers[namespace]
         elif '*' in self.namespace_handlers:
             handler = self.namespace_handlers['*']
